@@ -11,7 +11,7 @@ import (
 )
 
 func init() {
-	props["C09"] = &propDef{run: runC09, explanation: "C09 decided statically: (O1) the applier's window predicate (callee inlined) is extracted as a decision tree over comparisons of {0, from, until, t, from+Δ} and evaluated on every consistent weak ordering of these five points (exhaustive, boundaries included); it returns nil exactly when (from=0 ∧ until=0) ∨ (from ≤ t ≤ U), U = from+Δ if from≠0 ∧ until=0 else until. (P1) Δ is Protocol.MaxOperationTimeDelta in the applier and in the parser, and no other Protocol field is read by either computation. (G1) outside batch mode the three parsers succeed only across TimeValidator.Validate(signedData.AnchorFrom, U(signedData.AnchorFrom, signedData.AnchorUntil)) on the same signed data, with U decided as above; in batch mode the validator is unreachable. (G2) out-of-window update/recover still return the model with the advanced commitment and never install a patched document; out-of-window deactivate is refused. Assumes no int64 overflow in from+Δ and t < 2^63. (K1) the parser and applier never assign a field of protocol.Protocol; (U1) the signed anchoring times are compared nowhere in the parser except in the default-expiry function. (G3) Parser.anchorTimeValidator is written by New and its own option only, never with a possibly nil value."}
+	props["C09"] = &propDef{run: runC09, explanation: "C09 decided statically: (O1) the applier's window predicate (callee inlined) is extracted as a decision tree over comparisons of {0, from, until, t, from+Δ} and evaluated on every consistent weak ordering of these five points (exhaustive, boundaries included); it returns nil exactly when (from=0 ∧ until=0) ∨ (from ≤ t ≤ U), U = from+Δ if from≠0 ∧ until=0 else until. (P1) Δ is Protocol.MaxOperationTimeDelta in the applier and in the parser, and no other Protocol field is read by either computation. (G1) outside batch mode the three parsers succeed only across TimeValidator.Validate(signedData.AnchorFrom, U(signedData.AnchorFrom, signedData.AnchorUntil)) on the same signed data, with U decided as above; in batch mode the validator is unreachable. (G2) out-of-window update/recover still return the model with the advanced commitment and never install a patched document; out-of-window deactivate is refused. Assumes no int64 overflow in from+Δ and t < 2^63. (K1) the parser and applier never assign a field of protocol.Protocol; (U1) the signed anchoring times are compared nowhere in the parser except in the default-expiry function. (G3) Parser.anchorTimeValidator is written by New and its own option only, never with a possibly nil value. C07.K1 runs here."}
 }
 
 // windowFn discovers, in an apply function, the static callee invoked with
@@ -533,6 +533,11 @@ func runC09(c *Ctx) {
 	// ---- G3 "the configured time validator": the parser's validator fields are written by the constructor (the default)
 	// and by their own option (the configured one, when it is not nil) — and by nothing else
 	c.validatorFieldsRule("C09.G3", "anchorTimeValidator")
+	// "the window depends on no protocol parameter other than the maximum operation time delta": every protocol field the
+	// parser or the applier reads goes to its documented use and nowhere else (C07.K1) — a field read somewhere new (a
+	// genesis-time guard in Apply) makes the verdict depend on it
+	c.only(func(c *Ctx) { c.configSinks() }, "C07.K1")
+	c.Min("C07.K1", 9)
 	c.Min("C09.G3", 3)
 	c.Assume("no int64 overflow in from + MaxOperationTimeDelta; anchoring times < 2^63; 'missing' bound = 0 as in the JSON model (omitempty)")
 }
@@ -613,6 +618,22 @@ func (c *Ctx) validatorFieldsRule(rule string, fields ...string) {
 					if host.Object() != nil && !host.Object().Exported() && len(cs) == 1 && cs[0] == newFn {
 						where = "new"
 					}
+					// the option as a small struct with an apply method: With<Field> hands back the method value of a literal
+					// whose member is the validator it was given
+					if optFn := c.Fn(pParser, optName); where == "" && optFn != nil && host.Signature.Recv() != nil {
+						forEachInstr(optFn, func(i2 ssa.Instruction) {
+							if mc, isMC := i2.(*ssa.MakeClosure); isMC && funcValueOf(mc) == host && len(mc.Bindings) == 1 {
+								vp := c.Path(st.Val, nil) // $0.<member> in the method's frame
+								if strings.HasPrefix(vp, "$0.") {
+									if tok := c.structLitArg(mc.Bindings[0], nil); tok != "" {
+										if c.litField(tok, strings.TrimPrefix(vp, "$0.")) == "$0" {
+											where = "option-method"
+										}
+									}
+								}
+							}
+						})
+					}
 				}
 				if where == "" {
 					bad = append(bad, fmt.Sprintf("%s: %s writes Parser.%s (only New and %s may)", c.pos(st.Pos()), short(f.String()), fld, optName))
@@ -630,6 +651,33 @@ func (c *Ctx) validatorFieldsRule(rule string, fields ...string) {
 					if okG, _, n := c.Guard(f, nil, cmpReject(vp+" == nil kept out", token.EQL, pathIs(vp), pathIs("nil")), func(i ssa.Instruction) bool { return i == ssa.Instruction(st) }); okG && n > 0 {
 						nonNil = true
 					}
+				}
+				// (or the option constructor tests its argument before it makes the closure that stores it)
+				capt := st.Val
+				if ld, isLd := capt.(*ssa.UnOp); isLd && ld.Op == token.MUL {
+					capt = ld.X // (a variable captured through its cell)
+				}
+				if fv, isFV := capt.(*ssa.FreeVar); isFV && !nonNil && f.Parent() != nil {
+					par := f.Parent()
+					forEachInstr(par, func(i2 ssa.Instruction) {
+						mc, isMC := i2.(*ssa.MakeClosure)
+						if !isMC || mc.Fn != ssa.Value(f) {
+							return
+						}
+						for bi, b := range mc.Bindings {
+							if bi < len(f.FreeVars) && f.FreeVars[bi] == fv {
+								bp := c.Path(b, nil)
+								if al, isAl := b.(*ssa.Alloc); isAl {
+									if s1 := singleStore(al); s1 != nil {
+										bp = c.Path(s1.Val, nil)
+									}
+								}
+								if okG, _, n := c.Guard(par, nil, cmpReject(bp+" == nil kept out", token.EQL, pathIs(bp), pathIs("nil")), func(i ssa.Instruction) bool { return i == ssa.Instruction(mc) }); okG && n > 0 {
+									nonNil = true
+								}
+							}
+						}
+					})
 				}
 				if !nonNil {
 					bad = append(bad, fmt.Sprintf("%s: %s stores a value that may be nil into Parser.%s", c.pos(st.Pos()), short(f.String()), fld))
@@ -653,7 +701,9 @@ func (c *Ctx) validatorFieldsRule(rule string, fields ...string) {
 				} else {
 					nOpt++
 					// (the option stores what it was given: its captured argument)
-					if where == "option" && c.Path(st.Val, nil) != "up:$0" {
+					if where == "option-method" {
+						where = "option"
+					} else if where == "option" && c.Path(st.Val, nil) != "up:$0" {
 						bad = append(bad, fmt.Sprintf("%s: %s stores %s instead of the validator it was given", c.pos(st.Pos()), optName, c.Path(st.Val, nil)))
 					}
 				}
